@@ -55,6 +55,17 @@ func checkC11(c *hx.Ctx) {
 			code = ref.SHA512
 			p.MultihashAlgorithms = []uint{ref.SHA512}
 		}
+		if i%6 >= 4 {
+			// a version that enables both algorithms, the controller's one second: suffixes are computed with the first, everything
+			// the controller hashes (commitments, reveal values, delta hashes) with its own
+			other := uint(ref.SHA512)
+			if code == ref.SHA512 {
+				other = ref.SHA256
+			}
+			p.MultihashAlgorithms = []uint{other, uint(code)}
+			c.Count("chains_hashed_with_the_second_enabled_algorithm")
+		}
+		sfxCode := uint64(p.MultihashAlgorithms[0])
 		types := []string{ref.KeyTypes[i%5]}
 		if i%3 == 0 {
 			types = ref.KeyTypes
@@ -103,7 +114,7 @@ func checkC11(c *hx.Ctx) {
 			d.ReuseSigners = true
 			c.Count("dids_with_reused_signer_objects")
 		}
-		d.Suffix = suffixOf(cr.Req, code)
+		d.Suffix = suffixOf(cr.Req, sfxCode)
 		built := []*BuiltOp{cr}
 		nOps := 2 + r.Intn(4)
 		t := uint64(1000)
@@ -139,6 +150,14 @@ func checkC11(c *hx.Ctx) {
 				if r.Chance(1, 4) {
 					ups = append(ups, copyThenChange(r))
 					c.Count("updates_copying_a_member_and_changing_the_copy")
+				}
+				if r.Chance(1, 5) {
+					// a replace patch in the middle of an update, after patches that put aliases and custom members into the
+					// document: replace resets the document to exactly the keys and services it names
+					ups = append(ups, map[string]interface{}{"action": "add-also-known-as", "uris": []interface{}{"https://alias.example/" + genID(r, "")}},
+						patchJSON(map[string]interface{}{"op": "add", "path": "/note", "value": "n"}),
+						patchReplace([]interface{}{genKeyEntry(r, "rk")}, []interface{}{genService(r, "rs")}))
+					c.Count("updates_with_a_replace_patch_after_other_patches")
 				}
 				b, err = d.Update(ups, from, until)
 			}
@@ -189,7 +208,7 @@ func checkC11(c *hx.Ctx) {
 					if typ != "" {
 						sd["type"] = typ
 					}
-					if want := ref.HashModel(code, sd); want != op.UniqueSuffix {
+					if want := ref.HashModel(sfxCode, sd); want != op.UniqueSuffix {
 						bad("suffix %s differs from independently computed %s", op.UniqueSuffix, want)
 						return
 					}
@@ -311,6 +330,8 @@ func checkC11(c *hx.Ctx) {
 	c.Floor("chains_with_windows_longer_than_the_time_delta", 100)
 	c.Floor("updates_copying_a_member_and_changing_the_copy", 50)
 	c.Floor("chains_with_unusual_key_ids", 100)
+	c.Floor("chains_hashed_with_the_second_enabled_algorithm", 100)
+	c.Floor("updates_with_a_replace_patch_after_other_patches", 50)
 	c.Floor("client_operations_after_a_worthless_neighbour", 100)
 	_ = protocol.Protocol{}
 }
